@@ -51,6 +51,7 @@ type Outcome struct {
 	Inconclusive string
 	Counters     map[string]int64
 	Tags         []string // coverage cells hit
+	Identity     string   // if set: what makes this case distinct for the evidence count (default: content hash)
 }
 
 func (o *Outcome) Add(rule, detail string) {
